@@ -155,7 +155,7 @@ func c05RunProxy(env *c05ProxyEnv, c c05ProxyCase) (out c05Out) {
 	if err != nil {
 		return c05Out{key: "harness", msg: err.Error()}
 	}
-	base := runtime.NumGoroutine()
+	base := c05Baseline()
 	pre := c05Snap()
 	w := c05NewWorld("free")
 	w.solo = true
@@ -182,22 +182,20 @@ func c05RunProxy(env *c05ProxyEnv, c c05ProxyCase) (out c05Out) {
 	var pan any
 	returned := false
 	t0 := time.Now()
+	orphaned := 0 // consecutive observations of "Proxy waits, no halfPipe alive"
 	for !returned {
 		select {
 		case pan = <-pdone:
 			returned = true
-		case <-time.After(3 * time.Second):
-			gs := c05RelayGoroutines()
-			inWait, inPipe := false, false
-			for _, g := range gs {
-				if strings.Contains(g, "station/lib.halfPipe") {
-					inPipe = true
-				}
-				if strings.Contains(g, "station/lib.Proxy(") && strings.Contains(g, "WaitGroup).Wait") {
-					inWait = true
-				}
-			}
+		case <-time.After(300 * time.Millisecond):
+			gs, inPipe, inWait := c05RelayGoroutines()
 			if inWait && !inPipe {
+				orphaned++
+			} else {
+				orphaned = 0
+			}
+			if orphaned >= 3 {
+				// a permanent state, not a matter of timing: nobody is left who could release the WaitGroup
 				out.key, out.msg = "noreturn:proxy-waits-forever", "Proxy is blocked in wg.Wait() although no halfPipe is running any more: the call never returns and the session gauge stays raised"
 				return
 			}
@@ -236,7 +234,7 @@ func c05RunProxy(env *c05ProxyEnv, c c05ProxyCase) (out c05Out) {
 		return
 	}
 	if !leakFree {
-		gs := c05RelayGoroutines()
+		gs, _, _ := c05RelayGoroutines()
 		if len(gs) == 0 {
 			return c05Out{key: "harness", msg: fmt.Sprintf("goroutine count %d did not return to the baseline %d, but no goroutine is inside the relay code", runtime.NumGoroutine(), base)}
 		}
@@ -341,6 +339,9 @@ func c05RunProxy(env *c05ProxyEnv, c c05ProxyCase) (out c05Out) {
 			out.key, out.msg = k, fmt.Sprintf("up: client.Read returned %d bytes, the last %d of them %s never reached the covert although it was reading until the station closed (it saw %q after %d bytes)", readN, readN-res.recvN, what, res.readErr, res.recvN)
 			return
 		}
+	}
+	for t0 := time.Now(); !client.isClosed() && time.Since(t0) < 5*time.Second; {
+		time.Sleep(200 * time.Microsecond)
 	}
 	if !client.isClosed() {
 		out.key, out.msg = "teardown:connection-left-open", "the client connection was never closed"
